@@ -688,7 +688,12 @@ def merge_measure_contents(notes, other, measure_start):
             elements = merged[voice]
 
         else:
-            elements = notes[voice]
+            # only the notes, with forward/backup for the gaps between them
+            elements = (
+                merge_with_voice(notes[voice], [], notes[voice][0][0])[0]
+                if notes[voice]
+                else []
+            )
 
         # backup/forward when switching voices if necessary
         if elements:
